@@ -1325,7 +1325,7 @@ func sample(c Case) any {
 
 var spec = kit.Spec[Case]{
 	Prop: "C36", Name: "main",
-	Rule:  "decision engine in a synctest bubble: generated script (<=30/45 steps) of want-list messages (full/incremental, ties, cancels, duplicate, identity and oversize CIDs) from 1-3 peers, blockstore add+notify/remove, take-envelope(+MessageSent+Sent), disconnect, tick; limits 1..32, replace size 0/8/1024, filter, maxCidSize, targetMessageSize; per-envelope oracle, want-list subset/limit invariant, overflow predicates P1-P5, answered-at-quiescence; non-trivial = an overflow with >=2 distinct priorities among the existing entries, or a block removed while an accepted want for it was unanswered",
+	Rule:  "decision engine in a synctest bubble: generated script (<=30/45 steps) of want-list messages (full/incremental, ties, cancels, duplicate, identity and oversize CIDs) from 1-3 peers, directed overflow bursts (a message filling the list to the limit with 0..limit block-less wants, then one message of 1..limit newcomers mostly with blocks and higher priority), blockstore add+notify/remove, take-envelope(+MessageSent+Sent), disconnect, tick; limits 1..32, replace size 0/8/1024, filter, maxCidSize, targetMessageSize; per-envelope oracle, want-list subset/limit invariant, overflow predicates P1-P5, answered-at-quiescence; non-trivial = an overflow with >=2 distinct priorities among the existing entries, or a block removed while an accepted want for it was unanswered",
 	Quick: 2500, Thorough: 12000,
 	Gen: gen, Run: run, Sample: sample, Journal: true,
 }
